@@ -44,6 +44,9 @@ func init() {
 		pagesK1(rep, m, r, nS/2, false)
 		// recovery model vs. the open path on the images of random histories
 		for i := 0; i < n/4+5; i++ {
+			if rep.outOfTime() {
+				break
+			}
 			hr := rand.New(rand.NewSource(r.Int63()))
 			cfg := gen.PickConfig(hr)
 			prof := gen.DefaultProfile()
@@ -61,6 +64,9 @@ func init() {
 			e.Close()
 		}
 		for i := 0; i < n; i++ {
+			if rep.outOfTime() {
+				break
+			}
 			hseed := r.Int63()
 			hr := rand.New(rand.NewSource(hseed))
 			cfg := gen.PickConfig(hr)
